@@ -41,6 +41,7 @@ type ConcCase struct {
 	Conn     string `json:"conn,omitempty"` // connector update, optional: created | deleted | mboxdeleted
 	Teardown string `json:"teardown"`       // drop1 | drop2 | logout2 | removeuser | close
 	Bound    int    `json:"bound"`          // preemption bound (-1: unbounded)
+	Pipe     bool   `json:"pipe,omitempty"` // two NOOPs follow cmd1 in the same segment
 	Free     bool   `json:"free,omitempty"` // no gating: all parties run freely under the Go scheduler (race-detector pass)
 	Hold     bool   `json:"hold,omitempty"` // state updates are held back and handed to a session when the explorer says so
 }
@@ -49,6 +50,9 @@ func (c ConcCase) String() string {
 	h := ""
 	if c.Hold {
 		h = "|hold"
+	}
+	if c.Pipe {
+		h += "|pipe"
 	}
 	return fmt.Sprintf("%s|%s|%s|%s%s", c.Cmd1, c.Cmd2, c.Conn, c.Teardown, h)
 }
@@ -277,6 +281,22 @@ func runC19Conc(cs ConcCase, prefix []int, expect [][]string) *concExec {
 			var r imapc.Result
 			if strings.HasPrefix(c, "APPEND") {
 				r = sess[i].C.CmdLit("APPEND INBOX", vconn.MakeLiteral("n1"), "")
+			} else if i == 0 && cs.Pipe {
+				// two more commands arrive in the same segment: the command reader has the next one in hand while the
+				// session is busy with the first
+				tag := sess[i].C.NextTag()
+				if err := sess[i].C.Send([]byte(tag + " " + c + "\r\n" + tag + "b NOOP\r\n" + tag + "c NOOP\r\n")); err != nil {
+					return "closed"
+				}
+				r = sess[i].C.Collect(tag)
+				if r.Err == nil {
+					if r2 := sess[i].C.Collect(tag + "b"); r2.Err != nil || r2.Status != "OK" {
+						return r.Status + "+pipelined:" + r2.Status
+					}
+					if r3 := sess[i].C.Collect(tag + "c"); r3.Err != nil || r3.Status != "OK" {
+						return r.Status + "+pipelined2:" + r3.Status
+					}
+				}
 			} else {
 				r = sess[i].C.Cmd(c)
 			}
@@ -378,6 +398,8 @@ func runC19Conc(cs ConcCase, prefix []int, expect [][]string) *concExec {
 			}
 		}
 		x.outcome = strings.Join(sts, " ")
+		var left []string
+		w.AfterClose = func() { left = leaked(base, 10*time.Second) }
 		okc, dump := withWatchdog("Close", func() {
 			if closed {
 				w.Closed()
@@ -391,7 +413,7 @@ func runC19Conc(cs ConcCase, prefix []int, expect [][]string) *concExec {
 			return x
 		}
 		w.Close()
-		if left := leaked(base, 10*time.Second); len(left) > 0 {
+		if len(left) > 0 {
 			x.viol = append(x.viol, enumt.Viol{Clause: "goroutine-leak", Sig: left[0], Msg: fmt.Sprintf("case %s (free-running): %d gluon goroutine(s) left after Close: %v", cs, len(left), left)})
 		}
 		return x
@@ -556,6 +578,8 @@ func runC19Conc(cs ConcCase, prefix []int, expect [][]string) *concExec {
 			addV("update-not-acknowledged", cs.Conn, c.p.status)
 		}
 	}
+	var left []string
+	w.AfterClose = func() { left = leaked(base, 10*time.Second) }
 	okc, dump := withWatchdog("Close", func() {
 		if closed {
 			w.Closed()
@@ -569,7 +593,7 @@ func runC19Conc(cs ConcCase, prefix []int, expect [][]string) *concExec {
 		return x
 	}
 	w.Close()
-	if left := leaked(base, 10*time.Second); len(left) > 0 {
+	if len(left) > 0 {
 		addV("goroutine-leak", left[0], fmt.Sprintf("%d gluon goroutine(s) left after Close: %v; stacks: %s", len(left), left, lastLeakDump))
 	}
 	return x
@@ -701,8 +725,9 @@ func concCall(raw json.RawMessage) (any, error) {
 					res.Viol = append(res.Viol, v)
 				}
 			}
-			if x.poisoned {
-				// one deadlocking schedule decides the case; the rest of its tree is not explored
+			if x.poisoned || len(x.viol) > 0 {
+				// one violating schedule decides the case; the rest of its tree is not explored (a leak costs the 10 s
+				// grace period in every execution)
 				res.Counters["non-exhaustive"]++
 				break
 			}
